@@ -78,6 +78,8 @@ def classify(c):
         if lb_predicate(c["args"], c["go"]):
             return dict(layer="correspondence", what="LeastBytes: model and code differ (tie-break?) but every pick was a minimum", input=None)
         return dict(layer="property", what="LeastBytes picked a partition that did not have the fewest bytes", input=c)
+    if op == "wrtm":
+        return dict(layer="property", what="a kafka.Writer whose messages carry their own topics offered its balancer a partition list that is not 0..n-1 of the message's topic, or produced a record to a partition other than the balancer's result for that list", input=c)
     if op == "wrt":
         return dict(layer="property", what="messages written through a kafka.Writer (default balancer or RoundRobin{ChunkSize}) over several WriteMessages calls did not reach the partitions in round-robin order across the calls", input=c)
     if op == "hashconc":
